@@ -313,6 +313,9 @@ func (r *binaryReader) StepOut() error {
 	}
 
 	if err := r.bits.StepOut(); err != nil {
+		// The bitstream has already left the container; remember the error so the
+		// reader stays stopped instead of getting out of step with it.
+		r.err = err
 		return err
 	}
 
